@@ -13,28 +13,28 @@ CHECKS = {
                 "(one action per language rule) over them and over seeded random programs; every run of the real pipeline "
                 "(parser, transpiler, Bash converter, /bin/bash) is recorded and validated against the machine by TLC: stdout bytes, "
                 "exit status, empty stderr. Machine invariants (never stuck = type soundness within bounds, balanced stacks, "
-                "frame isolation) are checked in every visited state. Further families added after six rounds of seeded changes: negated comparisons, simultaneous assignment with wrapped operands, jumps of an outer loop around nested loops, jump sites in every kind of branch body, re-evaluation of one expression text before and inside loops; every typed position x every offered expression of spec/FamC06.tla is also run (compositional family); spec/FamScale.tla repeats the constructs at sizes across the digit boundaries (9-33).",
+                "frame isolation) are checked in every visited state. Further families added after six rounds of seeded changes: negated comparisons, simultaneous assignment with wrapped operands, jumps of an outer loop around nested loops, jump sites in every kind of branch body, re-evaluation of one expression text before and inside loops; every typed position x every offered expression of spec/FamC06.tla is also run (compositional family); spec/FamScale.tla repeats the constructs at sizes across the digit boundaries (9-33). Rounds 8-9 added spec/FamPairs.tla (every ordered pair of 40 feature snippets x 8 composition modes; each property takes the pairs whose highest property it is), spec/FamSkel.tla (EVERY control skeleton of up to 2, thorough 3, constructs out of 8 kinds with at most one jump site), self-referencing assignments and guards at the end of branches. The thorough tier instruments TLC with -coverage and fails (exit 2) if a rule of TshDyn the property is about was never taken.",
         "note": TRUST,
         "technique": "TLA+ abstract machine (TshDyn) + TLC trace validation of real transpile-and-run observations",
     },
     "C02": {
         "text": "TLC enumerates spec/FamC02.tla (every legal assignment of names to the roles global-before/parameter/local of two functions/global-after, "
                 "all arities and call shapes, in-place global updates by every assignment form, simultaneous and re-entrant multi-assignments, nested calls) "
-                "and validates each recorded Bash run against TshDyn's CallEnter/Return/AssignIn rules; FrameIsolation is an action property checked on every transition. Also: statement calls whose arguments are calls, loops that are live across a call, return forwarding, bracketless definitions, shadowing multi-definitions, and the FamScale cases (10+ functions, parameters, results, calls, locals).",
+                "and validates each recorded Bash run against TshDyn's CallEnter/Return/AssignIn rules; FrameIsolation is an action property checked on every transition. Also: statement calls whose arguments are calls, loops that are live across a call, return forwarding, bracketless definitions, shadowing multi-definitions, and the FamScale cases (10+ functions, parameters, results, calls, locals). Rounds 8-9 added the C02 part of spec/FamPairs.tla and the BlockDef family (one name defined in several blocks of a callee, some skipped at run time, while a variable of that name lives in the caller / at top level).",
         "note": TRUST,
         "technique": "TLA+ abstract machine (frames, globals) + TLC trace validation of real transpile-and-run observations",
     },
     "C03": {
         "text": "TLC enumerates spec/FamC03.tla (all in-range (a,b) subscripts per string length, growth for every (length, index, element type) incl. two-digit "
                 "values, all two-step aliasing histories over three slice variables, copy for all length pairs) and validates each recorded Bash run against "
-                "TshDyn's slice heap (SliceNew, SetIdxApply, ApplyCopy, ApplyIndex, ApplySubstr); RefsValid is checked in every state. Also: nested / sequential range loops over every pair of lengths, copy as a statement and from / into globals inside functions, element values with punctuation, the compositional run family (FamC06 RunCases with slices and strings), FamScale (10+ slices, 9-33 elements, strings of 9-100 characters).",
+                "TshDyn's slice heap (SliceNew, SetIdxApply, ApplyCopy, ApplyIndex, ApplySubstr); RefsValid is checked in every state. Also: nested / sequential range loops over every pair of lengths, copy as a statement and from / into globals inside functions, element values with punctuation, the compositional run family (FamC06 RunCases with slices and strings), FamScale (10+ slices, 9-33 elements, strings of 9-100 characters). Rounds 8-9 added the C03 part of spec/FamPairs.tla (slice and string snippets paired with every other feature in 8 composition modes).",
         "note": TRUST,
         "technique": "TLA+ abstract machine (slice heap with references) + TLC trace validation of real transpile-and-run observations",
     },
     "C04": {
         "text": "Every operand position of every statement kind is filled with an effectful probe so that stdout is the evaluation log; TLC enumerates "
                 "spec/FamC04.tla and validates each recorded log against the eager, left-to-right, evaluate-once rules of TshDyn "
-                "(ExprPushOperands, IfEvalAllConds, LoopHead). Also: one operand a literal or variable and the other with an effect (folding), arithmetic identities, exists / read next to a later operand that changes the file, continue from every kind of branch body with probed condition and increment, switches of 9-33 cases with the default in any position, 9-33 operands / arguments / conditions / elements.",
+                "(ExprPushOperands, IfEvalAllConds, LoopHead). Also: one operand a literal or variable and the other with an effect (folding), arithmetic identities, exists / read next to a later operand that changes the file, continue from every kind of branch body with probed condition and increment, switches of 9-33 cases with the default in any position, 9-33 operands / arguments / conditions / elements. Rounds 8-9 added the C04 part of spec/FamPairs.tla and the Inert family (callees that do nothing with their arguments x argument expressions with nested effects).",
         "note": TRUST + " A plain variable read is not an effect (ordering of reads against later callee writes is unspecified, as in Go).",
         "technique": "effect-probe families enumerated by TLC + trace validation of the evaluation log against the TLA+ machine",
     },
@@ -58,7 +58,7 @@ CHECKS = {
         "text": "spec/Totality.tla (the outcome protocol of one Transpile call) is model-checked exhaustively incl. termination under fairness; spec/TotalRun.tla binds "
                 "recorded outcomes to it: every call (both targets) runs in a worker subprocess with stack, memory and time caps and must end in exactly one of the two "
                 "well-formed returns; inputs: all strings up to length 3/4 over 16 characters (TLC-enumerated, lexical errors decided by the reference scanner), every "
-                "single-token edit of 47 base programs, all 729 import graphs over three files judged by spec/TshModules.tla, near-miss programs, seeded random texts.",
+                "single-token edit of 47 base programs, all 729 import graphs over three files judged by spec/TshModules.tla, near-miss programs, seeded random texts. Rounds 8-9 added the multi-file programs of spec/FamC09.tla and a sample of spec/FamPairs.tla to the outcome protocol, and import-time code in the import-graph family.",
         "note": "Trusted: TLC; the worker harness attributes a dead worker or exceeded deadline to the single input it was processing; bytes are represented by ASCII plus one UTF-8 letter.",
         "technique": "TLA+ outcome protocol model-checked by TLC + trace validation of recorded Transpile outcomes from sandboxed workers",
     },
@@ -107,7 +107,7 @@ CHECKS = {
     "C14": {
         "text": "spec/Purity.tla is a trace specification with the partial function memo the history has revealed: a call event is enabled only if it agrees with memo, so TLC accepts a "
                 "recorded history iff ONE function of (content id, target) explains all of it (NoCrossTalk as an action property). TLC enumerates all histories of 1-2 calls and the "
-                "3-call histories sharing a process over 4 source trees x 2 targets x {same object, new object, new process[, relocated copy]}; the harness replays each into the real library.",
+                "3-call histories sharing a process over 4 source trees x 2 targets x {same object, new object, new process[, relocated copy]}; the harness replays each into the real library. Rounds 8-9 added copied modules (two paths, identical bytes), single calls from a relocated tree in every tier, and programs in which one caller with several callees is known to two import parsers.",
         "note": "Trusted: TLC; the harness's process/segment handling; map-iteration seeds are sampled by process count, not enumerated.",
         "technique": "TLA+ trace specification with an unknown function (memo) + TLC validation of recorded call histories enumerated by TLC",
     },
@@ -115,14 +115,14 @@ CHECKS = {
         "text": "spec/Cli.tla states the outcome relation of one tsh invocation on (output directory, input): well-formedness of argv decided by the specification, success => exit 0 and "
                 "each requested target's file holds exactly the library's bytes and nothing else changes, failure => non-zero exit and no new or changed file for a failing target, the "
                 "input never changes. TLC enumerates every order of the option pairs for 6 target lists in both spellings, input names, program kinds, output-directory states and 25 "
-                "ill-formed option lists (spec/FamC19.tla); the real tsh binary is run once per case and the recorded outcome validated by TLC.",
+                "ill-formed option lists (spec/FamC19.tla); the real tsh binary is run once per case and the recorded outcome validated by TLC. Rounds 8-9 added input programs with imports (import-time code, an ill-typed import) and programs with nothing to execute (functions only, comments only, an unused import, no bytes).",
         "note": "Trusted: TLC; the harness's directory snapshots (SHA-256) and its library call on a copy of the input as the standard.",
         "technique": "TLA+ outcome relation (Cli) + TLC validation of recorded runs of the real tsh binary over TLC-enumerated invocations",
     },
     "C16": {
         "text": "spec/Emit.tla is the emission protocol between the transpiler and a converter as a trace specification: open constructs own their labels, jumps must land on the label "
                 "their construct defines, no label twice, every target defined, balanced parentheses, helper routines present exactly when called. A decorator around the real Batch "
-                "converter records every Converter call with the line facts of what it appended; TLC validates each trace. Bash scripts are checked with `bash -n`.",
+                "converter records every Converter call with the line facts of what it appended; TLC validates each trace. Bash scripts are checked with `bash -n`. Rounds 8-9 added spec/FamSkel.tla and spec/FamPairs.tla to the traced programs; TLC's action coverage of Emit!Event is recorded (thorough: every event kind must be taken).",
         "note": "Trusted: TLC; attribution of lines to converter calls by Dump() diff (checked insertion-only); recognition of labels/jumps/calls by line shape; bash -n.",
         "technique": "TLA+ protocol trace specification (Emit) + TLC validation of recorded converter-call traces; bash -n for the Bash target",
     },
@@ -130,7 +130,7 @@ CHECKS = {
         "text": "No cmd.exe exists in the sandbox, so the Batch target is decided under an explicit TLA+ model of the rules the property names (spec/CmdExe.tla: units, %- and !-expansion phases, "
                 "set /A in 32 bits, numeric-vs-text IF, forward-then-wrap label search from the end of the current unit, call/exit /B frames). The REAL emitted script of every program "
                 "(C01-C04 families in the int32/cmd-neutral fragment, label-allocation shapes across functions, seeded random programs) is parsed into units and executed by TLC; stdout and "
-                "status must equal the reference semantics TshDyn(W=32); the Bash run is a third witness.",
+                "status must equal the reference semantics TshDyn(W=32); the Bash run is a third witness. Rounds 8-9 added spec/FamSkel.tla (every control skeleton up to a size) and spec/FamPairs.tla under the cmd.exe model, the GuardTail family, rule R9 for ') else (' met outside a block, and a guard that ends the run as an infrastructure error when the model cannot execute the script of a program without file / command / input builtins.",
         "note": "Trusted: TLC; spec/CmdExe.tla as the statement of cmd.exe's documented rules (a model, not cmd.exe); harness/batparse.go as the splitter of emitted lines into commands and segments.",
         "technique": "TLA+ model of cmd.exe executing the real emitted Batch script in TLC, compared with the TLA+ reference semantics",
     },
